@@ -55,6 +55,15 @@ PROPS = {
         "assumptions": STD_ASSUME_PURE + ["broadcast channel never overflows (each connection task sees every SendOwnState), see DESIGN.md C11/C14",
                                            "new_optimistic_peers returns at most MAX_OPTIMISTIC peers, each currently choked and interested (read off the code: choose() of that filtered list)"],
     },
+    "C08": {
+        "lean_modules": ["RdestModel.Props.C08"],
+        "cases": {"quick": 400, "thorough": 12000},
+        "rule": "scripts for the real connection task (in-memory stream, scripted manager): incoming and outgoing connections; frames before any "
+                "handshake (bitfield, interested, request, unchoke, keep-alive, broadcast have); handshakes that are valid, carry another "
+                "info-hash, another peer id, are repeated or absent; then ordinary traffic incl. requests for stored pieces; per event outputs "
+                "compared with the model; the predicate P08 of the theorem evaluated on the implementation's own trace; distinct = distinct scripts",
+        "assumptions": STD_ASSUME_PURE + ["a wrong protocol string is a decode error (C06); the manager forgets the peer on KillReq (kill step, C12)"],
+    },
     "C20": {
         "lean_modules": ["RdestModel.Props.C20"],
         "cases": {"quick": 400, "thorough": 12000},
